@@ -92,6 +92,14 @@ def families(rep, d) -> None:
         "csvlatin1": ({"200": {"description": "d", "content": {"text/csv; charset=iso-8859-1": {"schema": S}}}}, 200, "text/csv; charset=iso-8859-1", "na\u00efve;caf\u00e9".encode("iso-8859-1"), "text", "na\u00efve;caf\u00e9"),
         "plainutf8": ({"200": {"description": "d", "content": {"text/plain": {"schema": S}}}}, 200, "text/plain; charset=utf-8", "na\u00efve \u2713 \u65e5\u672c".encode(), "text", "na\u00efve \u2713 \u65e5\u672c"),
         "plainnocharset": ({"200": {"description": "d", "content": {"text/plain": {"schema": S}}}}, 200, "text/plain", "na\u00efve \u2713".encode(), "text", "na\u00efve \u2713"),
+        # text media types whose schema is a scalar other than a plain string
+        "textenum": ({"200": {"description": "d", "content": {"text/plain": {"schema": {"type": "string", "enum": ["on", "off"]}}}}}, 200, "text/plain", b"on", "text", "on"),
+        "textdate": ({"200": {"description": "d", "content": {"text/plain": {"schema": {"type": "string", "format": "date"}}}}}, 200, "text/plain", b"2020-01-02", "other:date", None),
+        "textuuid": ({"200": {"description": "d", "content": {"text/plain": {"schema": {"type": "string", "format": "uuid"}}}}}, 200, "text/plain", b"12345678-1234-5678-1234-567812345678", "other:UUID", None),
+        # one shared component response with an INLINE schema, documented under the same status by several operations
+        "shr1": ({"200": {"description": "d", "content": {"application/json": {"schema": out_ref}}}, "404": {"$ref": "#/components/responses/InlineProblem"}}, 404, "application/json", b'{"title": "t"}', "model:Shr1Response404", {"title": "t"}),
+        "shr2": ({"200": {"description": "d", "content": {"application/json": {"schema": out_ref}}}, "404": {"$ref": "#/components/responses/InlineProblem"}}, 404, "application/json", b'{"title": "t"}', "model:Shr2Response404", {"title": "t"}),
+        "shr3": ({"404": {"$ref": "#/components/responses/InlineProblem"}, "409": {"$ref": "#/components/responses/InlineProblem"}}, 409, "application/json", b'{"title": "t"}', "model:Shr3Response409", {"title": "t"}),
         "texthtml": ({"200": {"description": "d", "content": {"text/html": {"schema": S}}}}, 200, "text/html", b"<p>x</p>", "text", "<p>x</p>"),
         "twostatus": ({"200": {"description": "d", "content": {"application/json": {"schema": out_ref}}}, "404": {"description": "d", "content": {"application/json": {"schema": {"$ref": "#/components/schemas/Other"}}}}},
                       404, "application/json", b'{"w": "nf"}', "model:Other", {"w": "nf"}),
@@ -103,7 +111,8 @@ def families(rep, d) -> None:
         paths[f"/fam/{name}"] = {"get": {"operationId": name, "tags": ["t"], "responses": responses}}
     comps = json.loads(json.dumps(endpoint.COMPONENTS))
     comps["schemas"]["Other"] = other
-    comps["responses"] = {"Good": {"description": "d", "content": {"application/json": {"schema": out_ref}}}}
+    comps["responses"] = {"Good": {"description": "d", "content": {"application/json": {"schema": out_ref}}},
+                          "InlineProblem": {"description": "d", "content": {"application/json": {"schema": {"type": "object", "required": ["title"], "properties": {"title": S, "kind": {"type": "string", "enum": ["a", "b"]}}}}}}}
     doc = gen.mkdoc(paths=paths, components=comps)
     g = gen.generate(doc, d / "rfam")
     if g["exc"] or g["rejected"]:
@@ -145,7 +154,7 @@ def families(rep, d) -> None:
                 got = o["return"]["parsed"]
                 if got != kind:
                     rep.violate(f"C04/family/{name}/parsed-kind", f"{name}: {variant} parsed {got}, expected {kind} for {ctype} {body!r}", observed=o["return"])
-                elif variant == "sync_detailed" and o["return"].get("parsed_value") != value:
+                elif variant == "sync_detailed" and value is not None and o["return"].get("parsed_value") != value:
                     rep.violate(f"C04/family/{name}/parsed-value", f"{name}: parsed value {o['return'].get('parsed_value')!r}, expected {value!r}")
 
 
